@@ -44,4 +44,12 @@ void h_park_self(void);
 long h_recv_calls(void);
 int h_thread_wait_parked_or_blocked(void *h, long calls_before, int timeout_ms);
 int h_thread_release_until_blocked(void *h);
+int h_writer_run(void *h);
+int h_writer_asleep_unsignalled(void *h);
+int h_mutex_held(pthread_mutex_t *m);
+struct list;
+struct list_node;
+struct list_node *h_list_first(struct list *l, const char *fn);
+extern void (*h_lock_hook)(pthread_mutex_t *m, const char *fn);
+extern void (*h_list_hook)(struct list *l, const char *fn);
 #endif
